@@ -2,6 +2,8 @@ package main
 
 import (
 	"fmt"
+	"os"
+	"path/filepath"
 	"regexp"
 	"runtime"
 	"strings"
@@ -101,7 +103,7 @@ func inputMessages(ctxID, reqID []byte) []inputCase {
 	coinDom := []sdk.Coins{nil, {}, coins(1), coins(10), hugeCoins(), maxCoins(), sdk.NewCoins(sdk.NewInt64Coin("foo", 10)),
 		sdk.NewCoins(sdk.NewInt64Coin("foo", 10), sdk.NewInt64Coin(denom, 10))}
 	hugePrice := `{"price":"4` + strings.Repeat("0", 76) + `stake"}`
-	pricingDom := []string{`{"price":"0stake"}`, `{"price":"1stake"}`, `{"price":"1.5stake"}`, `{"price":"7foo"}`, hugePrice, pricingText("p2v"), pricingText("p1t"),
+	pricingDom := []string{`{"price":"1` + strings.Repeat("0", 77) + `.0stake"}`, `{"price":"0stake"}`, `{"price":"1stake"}`, `{"price":"1.5stake"}`, `{"price":"7foo"}`, hugePrice, pricingText("p2v"), pricingText("p1t"),
 		`{"price":"1stake","promotions_by_time":[{"start_time":"0000-01-01T00:00:00Z","end_time":"0000-06-01T00:00:00Z","discount":"0.5"}]}`,
 		`{"price":"1stake","promotions_by_time":[{"start_time":"9999-01-01T00:00:00Z","end_time":"9999-12-31T23:59:59Z","discount":"0.5"}]}`,
 		// year 1 / year 9999 in the timestamp's own zone, outside in UTC
@@ -352,6 +354,34 @@ func inputGridWith(inv Oracle) (*PureEvidence, []Found) {
 	for k, v := range ev.Counters {
 		if strings.HasPrefix(k, "delivered/") || strings.HasPrefix(k, "end-of-block-after/") {
 			ev.Evaluations += v
+		}
+	}
+	// stateless validation (and every later use of a stored schema) must not read the host: a schema that refers to a
+	// document outside the message is judged once with that document present and once with it absent
+	if inv == nil {
+		for _, where := range []string{"input", "output"} {
+			dir, err := os.MkdirTemp("", "svcmc-ref")
+			if err != nil {
+				continue
+			}
+			f := filepath.Join(dir, "s.json")
+			_ = os.WriteFile(f, []byte(`{"type":"object"}`), 0o644)
+			other := "output"
+			if where == "output" {
+				other = "input"
+			}
+			sch := fmt.Sprintf(`{"%s":{"$ref":"file://%s"},"%s":{"type":"object"}}`, where, f, other)
+			msg := st.NewMsgDefineService("ext", "", nil, AU, "", sch)
+			e1 := msg.ValidateBasic()
+			_ = os.RemoveAll(dir)
+			e2 := msg.ValidateBasic()
+			ev.Evaluations += 2
+			ev.Counters["external-reference-cases"]++
+			if (e1 == nil) != (e2 == nil) {
+				v := viol("C20", "validation-independent-of-the-host", "define", "external-$ref/"+where,
+					fmt.Sprintf("define with %s schema {\"$ref\":\"file://...\"}: accepted=%v while the file exists, accepted=%v after it was removed (%v)", where, e1 == nil, e2 == nil, e2))
+				found[v.Sig] = &Found{Violation: v, Trace: []string{"define", "external $ref in the " + where + " schema"}, Count: 1}
+			}
 		}
 	}
 	ev.Distinct = int64(len(distinct))
